@@ -53,18 +53,21 @@ def execute(rec):
     g = M.build(rec["recipe"])
     nd, nc = g.dim, g.num_cells
     t = rec["t"]
-    sub = dict(mu=rec["mu"], lam=rec["lam"], neu=sorted(rec["neu"]), t=t, error="", solerr="", regular=True,
+    nc_ = sorted([int(f), int(k)] for f, k in rec.get("nc", []))
+    sub = dict(mu=rec["mu"], lam=rec["lam"], neu=sorted(rec["neu"]), nc=nc_, t=t, error="", solerr="", regular=True,
                bcq=[], sq=[], sm=[], uq=[], um=[], rq=[], rm=[])
     try:
         bf, dirf, neu0, sgn = M.boundary_setup(g, rec["neu"])
         C = pp.FourthOrderTensor(rec["mu"] * np.ones(nc), rec["lam"] * np.ones(nc))
-        data = {pp.PARAMETERS: {KEY: {"fourth_order_tensor": C, "bc": M.vector_bc(g, dirf, neu0)}},
+        data = {pp.PARAMETERS: {KEY: {"fourth_order_tensor": C, "bc": M.vector_bc(g, dirf, neu0, nc_)}},
                 pp.DISCRETIZATION_MATRICES: {KEY: {}}}
         pp.Tpsa(KEY).discretize(g, data)
         mats = data[pp.DISCRETIZATION_MATRICES][KEY]
         bcv = np.zeros((nd, g.num_faces))
         for k in range(nd):
-            bcv[k, dirf] = t[k]          # u = t on Dirichlet faces, zero traction on Neumann faces
+            bcv[k, dirf] = t[k]          # u_k = t_k in Dirichlet components, zero traction in Neumann components
+        for f, k in nc_:
+            bcv[k - 1, f - 1] = 0.0
         bc = bcv.ravel("F")
         ut = np.tile(np.asarray(t[:nd], dtype=float), nc)
         stress = mats["stress"] @ ut + mats["bound_stress"] @ bc
@@ -86,7 +89,7 @@ def execute(rec):
 def class_key(rec, g):
     r = rec["recipe"]
     return (r["base"]["kind"], g["dim"], len(g["cf"]), tuple(o["op"] for o in r.get("ops", [])),
-            rec["mu"], rec["lam"], min(len(rec["neu"]), 3), tuple(rec["t"]))
+            rec["mu"], rec["lam"], min(len(rec["neu"]), 3), rec.get("mode", "face"), tuple(rec["t"]))
 
 
 def judge(ctx, recs, prefix=""):
@@ -98,19 +101,19 @@ def judge(ctx, recs, prefix=""):
         ctx.violation(clause, dict(r, error=subs[i]["error"], solerr=subs[i]["solerr"], regular=subs[i]["regular"]),
                       f"{prefix}{r['recipe']['base']['kind']} n={[len(a) - 1 for a in r['recipe']['base']['axes']]} "
                       f"ops={[o['op'] for o in r['recipe'].get('ops', [])]} mu={r['mu']} lam={r['lam']} neu={r['neu']} "
-                      f"t={r['t']} {subs[i]['error']} {subs[i]['solerr']}")
+                      f"{r.get('mode', 'face')} nc={r.get('nc', [])} t={r['t']} {subs[i]['error']} {subs[i]['solerr']}")
 
-    outside, incon = M.judge(ctx, recs, subs, exports, "JudgeC16", viol, batch=400)
+    outside, incon = M.judge(ctx, recs, subs, exports, "JudgeC16", viol, batch=1500)
     for i, (r, s, g) in enumerate(zip(recs, subs, exports)):
         if i in outside:
-            if r["neu"] and not s["regular"]:
+            if (r["neu"] or r.get("nc")) and not s["regular"]:
                 # singular mixed system: ZeroStress was judged, the solve clause is outside the family
                 ctx.extra["singular_mixed_systems"] = ctx.extra.get("singular_mixed_systems", 0) + 1
                 ctx.case(key=class_key(r, g), nontrivial=True)
             else:
                 ctx.extra["outside_family"] = ctx.extra.get("outside_family", 0) + 1
             continue
-        ctx.case(key=class_key(r, g), nontrivial=len(g["cf"]) > 1 or bool(r["neu"]), n=2)
+        ctx.case(key=class_key(r, g), nontrivial=len(g["cf"]) > 1 or bool(r["neu"]) or bool(r.get("nc")), n=2)
     return subs, outside
 
 
@@ -122,9 +125,10 @@ def plan(ctx):
     else:
         sizes = [(a, b) for a in (1, 2, 3) for b in (1, 2, 3)] + [(a, b, c) for a in (1, 2) for b in (1, 2) for c in (1, 2)]
     coefs = [dict(alpha=0, p=i + 1) for i in range(len(TRANSLATIONS))]
-    fam = M.Family(ctx, sizes, [1, 2], [1, 3], max_neu=2, coefs=coefs)
+    fam = M.Family(ctx, sizes, [1, 2], [1, 3], max_neu=2, coefs=coefs, roll_modes=("rollN", "rollT"))
     ctx.extra["configurations_enumerated"] = len(fam.configs)
     ctx.extra["neumann_sets_enumerated"] = sum(len(v) for v in fam.neusets.values())
+    ctx.extra["componentwise_assignments_enumerated"] = sum(len(v) for v in fam.rollsets.values())
     gi = {k: i for i, k in enumerate(fam.keys)}
     recs = []
     for c in fam.configs:
@@ -148,6 +152,15 @@ def plan(ctx):
             chosen.append(big)
         for s in chosen:
             recs.append(dict(base, neu=s))
+        # component-wise mixes on the same face: rolling in the normal / in a tangential direction on a set of faces
+        # enumerated by TLC (the rest fully Dirichlet), and a seeded per-component mix with one face kept fully Dirichlet
+        for mode in (("rollN", "rollT")[(gi[k] + li) % 2:][:1] if q else ("rollN", "rollT")):
+            for a in M.pick([a for a in fam.rollsets[k] if a["mode"] == mode], 1 if q else 2, rng):
+                recs.append(dict(base, neu=[], nc=a["nc"], mode=mode))
+        keep = rng.choice(bf)
+        nc = [[f, d + 1] for f in bf if f != keep for d in range(g.dim) if rng.random() < 0.35]
+        if nc:
+            recs.append(dict(base, neu=[], nc=nc, mode="random"))
     return recs
 
 
@@ -155,14 +168,16 @@ def run(ctx):
     ctx.rule = ("TLC enumerates (Cartesian | structured simplex grid) x (cells per direction <= 3 in 2D, <= 2 in 3D) x (plain | "
                 "lattice-perturbed / sheared with planar faces) x mu in {1,2} x lambda in {1,3} x (all-Dirichlet | mixed) x "
                 "(translation (1,-2,3), (3,1,-2), (0,2,0)); for the mixed mode TLC enumerates the Neumann sets of <= 2 faces of "
-                "the real grid and the harness adds a seeded larger proper subset.  Each selected configuration is discretised "
+                "the real grid (2D also all-but-<=1) and, on each such set, the component-wise rolling assignments (normal "
+                "component Dirichlet / tangential Neumann, and the converse); the harness adds a seeded larger proper subset "
+                "and a seeded per-component mix.  Each selected configuration is discretised "
                 "with pp.Tpsa; the stress matrices are applied to the uniform displacement and the assembled system is solved. "
                 "One evaluation = one clause of one configuration; classes = (kind, dim, #cells, operations, mu, lambda, "
                 "#Neumann, translation); non-trivial = several cells or a Neumann face")
     ctx.assumptions = ["integer node coordinates |x| <= 12, planar faces, valid cells (ValidE decided by TLC on the exported grid)",
                        "lambda > 0 (the solid-pressure accumulation term divides by lambda)",
-                       "boundary data consistent with the translation: u = t on Dirichlet faces, zero traction on Neumann faces; "
-                       "at least one Dirichlet face",
+                       "boundary data consistent with the translation: u_k = t_k in Dirichlet components, zero traction in Neumann "
+                       "components (face-wise and component-wise mixes); at least one face Dirichlet in every component",
                        "mixed cases whose assembled system is numerically singular (cond >= 1e6) are outside the solve clause",
                        "solve = scipy.sparse.linalg.spsolve (black box); solution compared with the integers within 1e-8",
                        "black-box oracle: the two-point stress mechanism is not modelled"]
@@ -171,7 +186,7 @@ def run(ctx):
     subs, outside = judge(ctx, recs)
     for r, c in list(zip(recs, subs))[:: max(1, len(recs) // 5)]:
         ctx.sample(dict(recipe=r["recipe"]["base"], ops=[o["op"] for o in r["recipe"].get("ops", [])], mu=r["mu"], lam=r["lam"],
-                        neu=r["neu"], t=r["t"], regular=c["regular"], u_cell1=(c["uq"] or [None])[0],
+                        neu=r["neu"], mode=r.get("mode", "face"), nc=r.get("nc", [])[:6], t=r["t"], regular=c["regular"], u_cell1=(c["uq"] or [None])[0],
                         stress_face1=(c["sq"] or [None])[0]))
     ctx.exhaustive = False
 
@@ -179,5 +194,6 @@ def run(ctx):
 def replay(ctx, body):
     rec = body["record"]
     r = {k: rec[k] for k in ("recipe", "mu", "lam", "neu", "t")}
+    r["nc"], r["mode"] = rec.get("nc", []), rec.get("mode", "face")
     judge(ctx, [r], prefix="replayed: ")
     ctx.sample(dict(recipe=r["recipe"]["base"], neu=r["neu"], t=r["t"]))
